@@ -391,7 +391,7 @@ def _c03_pipeline(ctx):
             try:
                 want = theta.predict_conditional_mean(ref.IdView([sd0[r[0]] for r in rows], [[td0[t] for t in r[1]] for r in rows]))
                 got = theta.predict_conditional_mean(scr)
-            except (IndexError, KeyError) as e:
+            except Exception as e:
                 ctx.violation("C03.prediction-changed", f"pipeline:{name.rstrip('0123456789')}",
                               f"stage {name}: thetas trained at round 1 cannot be applied: {e!r}")
                 return
@@ -1199,6 +1199,16 @@ def _c03_judge(ctx, live, when, trigger, s, sd, td, sd0, td0):
         ctx.violation("C03.mapping-renumbered", trigger,
                       f"{live.tag} screen {when}: mapping disagrees with the prepared simulation's ids: "
                       f"samples {dict(list(bad_s.items())[:3])} treatments {dict(list(bad_t.items())[:3])} (got, frozen)")
+    # the other direction: an id keeps its name (a mapping entry that was renamed, e.g. truncated, assigns
+    # the id of one sample / condition to another name even if no row of this screen uses it)
+    inv_s0 = {v: k for k, v in sd0.items()}
+    inv_t0 = {v: k for k, v in td0.items() if v != ref.CONTROL}
+    ren_s = {v: (k, inv_s0[v]) for k, v in sd.items() if v in inv_s0 and inv_s0[v] != k and k not in sd0}
+    ren_t = {v: (k, inv_t0[v]) for k, v in td.items() if v != ref.CONTROL and v in inv_t0 and inv_t0[v] != k and k not in td0}
+    if ren_s or ren_t:
+        ctx.violation("C03.mapping-renamed", trigger,
+                      f"{live.tag} screen {when}: ids now belong to other names than in the prepared simulation: "
+                      f"samples {dict(list(ren_s.items())[:3])} treatments {dict(list(ren_t.items())[:3])} (id: (now, prepared))")
     ids = ref.row_ids(s)
     for i, (r, (sid, tids, _)) in enumerate(zip(live.rows, ids)):
         want_s = sd0.get(r[0])
@@ -1217,7 +1227,7 @@ def _c03_judge(ctx, live, when, trigger, s, sd, td, sd0, td0):
         try:
             got = ctx.theta.predict_conditional_mean(s)
             got_v = ctx.theta.predict_viability(s)
-        except IndexError as e:
+        except Exception as e:
             ctx.violation("C03.prediction-changed", trigger,
                           f"{live.tag} screen {when}: posterior sample sized by the first stage cannot index this stage's ids: {e!r}")
             return
